@@ -97,6 +97,60 @@ def strip_cfg(text, feature):
         text = text[:m.start()] + text[i:]
 
 
+LET_ELSE = re.compile(r"(?<!if )(?<!while )\blet\s+(Some|Ok|Err)\((\w+)\)\s*=\s*")
+
+
+def desugar_let_else(text):
+    """`let Some(x) = EXPR else { BLOCK };`  ==>  `let x = match EXPR { Some(x) => x, _ => { BLOCK } };`
+    (let-else is outside Verus' subset; this is its definition for a pattern binding a single identifier). Anything else
+    is left untouched."""
+    pos = 0
+    while True:
+        m = LET_ELSE.search(text, pos)
+        if not m:
+            return text
+        # scan EXPR up to ` else {` at bracket depth 0; give up at `;` (a plain `let` or an if-let)
+        i, depth, found = m.end(), 0, None
+        while i < len(text):
+            ch = text[i]
+            if ch in "([{":
+                depth += 1
+            elif ch in ")]}":
+                if depth == 0:
+                    break
+                depth -= 1
+            elif ch == ";" and depth == 0:
+                break
+            elif depth == 0 and re.match(r"\belse\s*\{", text[i:]) and not text[i - 1].isalnum():
+                found = i
+                break
+            i += 1
+        if found is None:
+            pos = m.end()
+            continue
+        expr = text[m.end():found].strip()
+        b0 = text.index("{", found)
+        j, depth = b0, 0
+        while j < len(text):
+            if text[j] == "{":
+                depth += 1
+            elif text[j] == "}":
+                depth -= 1
+                if depth == 0:
+                    break
+            j += 1
+        k = j + 1
+        while k < len(text) and text[k] in " \t\n":
+            k += 1
+        if k >= len(text) or text[k] != ";":
+            pos = m.end()
+            continue
+        variant, ident = m.group(1), m.group(2)
+        new = "let %s = match %s { %s(%s) => %s, _ => %s };" % (ident, expr, variant, ident, ident, text[b0:j + 1])
+        text = text[:m.start()] + new + text[k + 1:]
+        pos = m.start() + len(new)
+
+
 def expand_template(scratch, tmpl_path):
     lines = open(tmpl_path).read().split("\n")
     out = []
@@ -138,6 +192,7 @@ def expand_template(scratch, tmpl_path):
             text, line_no = fn_text(scratch, args["file"], args["fn"], args.get("within"), int(args.get("nth", "0")))
             for feat in strip:
                 text = strip_cfg(text, feat)
+            text = desugar_let_else(text)
             for rx, rep, optional in rewrites:
                 text, n = re.subn(rx, rep, text)
                 if n == 0 and not optional:
